@@ -26,8 +26,11 @@ def run(chk, repo, tier):
     chk.clause('C13-d', 'no internal call relies on the hard-coded default wavelength unit', 5)
     chk.clause('C13-e', 'the result is a new Spectrum; scalar/vector operands keep the wavelength grid', 3)
     chk.clause('C13-f', 'common grid built symmetrically; both operands sampled and filled the same way', 3)
+    chk.clause('C13-g', 'operand samples are taken on the closed range of the operand; min sampling over both operands', 2)
     chk.not_decided += ['interpolated values', 'grid construction numerics']
 
+    from .extra_rules import sampling_rules
+    sampling_rules(chk, repo, 'C13-g')
     cls = repo.cls(SPEC)
     # ---------------------------------------------------------------- C13-a
     for dunder, (meth, ufunc) in OPS.items():
